@@ -290,6 +290,23 @@ def argument_forms(chk, rng):
             if not np.array_equal(w, w0):
                 chk.violation("vertical_profiles modifies the wind array it is given: %s became %s" % (w0.tolist(), w.tolist()), sc, klass={"check": "wind_modified"})
                 continue
+            # the returned arrays belong to the caller: it rescales them in place (u *= 1.2, Kz *= 0.5, z += 1) and asks
+            # again with the very same (hashable) arguments - the answer is that of the first call
+            ref_copy = (np.array(ref[0], dtype=float), tuple(np.array(a_, dtype=float) for a_ in ref[1]))
+            try:
+                np.asarray(ref[0])[...] += 1.0
+                for a_, f_ in zip(ref[1], (1.2, -0.7, 3.0, 0.25, 0.5)):
+                    np.asarray(a_)[...] *= f_
+            except (ValueError, TypeError):
+                pass                              # read-only results are the package's business
+            again = vertical_profiles(8, 5.0, (um, vm), **kw)
+            n += 1
+            if not (np.allclose(np.asarray(again[0]).ravel(), ref_copy[0].ravel(), rtol=1e-12, atol=0) and all(
+                    np.allclose(np.asarray(p).ravel(), q.ravel(), rtol=1e-12, atol=1e-14) for p, q in zip(again[1], ref_copy[1]))):
+                chk.violation("vertical_profiles called again with the same arguments after the caller rescaled the first result in place returns other profiles (closure %s): what was returned earlier is still referenced" % closure,
+                              sc, klass={"check": "returned_arrays_aliased"})
+                continue
+            ref = ref_copy
             for o in outs:
                 same = np.allclose(np.asarray(o[0]).ravel(), np.asarray(ref[0]).ravel(), rtol=1e-12, atol=0) and all(
                     np.allclose(np.asarray(p).ravel(), np.asarray(q).ravel(), rtol=1e-12, atol=1e-14) for p, q in zip(o[1], ref[1]))
